@@ -71,6 +71,10 @@ def shards(tier):
     # strings of 50+ characters (never cast to fixed width) with duplicates as FIRST key: the second key decides among them
     for k2 in ("i8", "str", "f8"):
         out.append({"part": "two", "kinds": ["str", k2], "n": 4 if big else 3, "alphas": [[None, V.LONG_A, V.LONG_B], V.alphabet(k2, "key")]})
+    # two (three) integer keys that each span more than 2**32 (2**21): a packed key would not fit int64
+    wide = [-8589934592, 0, 8589934592, 1]
+    out.append({"part": "two", "kinds": ["i8", "i8"], "n": 4 if big else 3, "alphas": [wide, wide]})
+    out.append({"part": "two", "kinds": ["i8", "str"], "n": 3, "alphas": [[-4611686018427387904, 0, 4611686018427387903], [None, "a", "b"]]})
     for t in TRIPLES:
         out.append({"part": "three", "kinds": list(t), "n": 3 if big else 2})
     # E2: sort after a history of in-place edits, observe-and-discard calls and cell pokes on the same object
